@@ -115,11 +115,11 @@ void sqrt_elastic(char const* desc)
 }
 
 // scaled_integer<Rep, power<E>> with even E: r at exponent E/2 with r^2 <= x < (r+ulp)^2  <=>  on reps: floor(sqrt(rep))
-template<class Rep, int E>
+template<class Rep, int E, int Radix = 2>
 void sqrt_scaled(char const* desc)
 {
     if (!kernel_selected(desc)) return;
-    using S = cnl::scaled_integer<Rep, cnl::power<E>>;
+    using S = cnl::scaled_integer<Rep, cnl::power<E, Radix>>;
     Tally t(desc);
     Rng rng(mix(env_seed(), hash_str(desc)));
     size_t nd;
@@ -129,16 +129,18 @@ void sqrt_scaled(char const* desc)
         X const& x = vals[i];
         if (x.neg) { ++t.ood; continue; }
         X got;
-        int re = 0;
+        int re = 0, rr = Radix;
         arm_timer(200);
         Outcome o = guarded([&] {
             auto r = cnl::sqrt(deep<S>(x));
             re = cnl::_impl::tag_of_t<decltype(r)>::exponent;
+            rr = cnl::_impl::tag_of_t<decltype(r)>::radix;
             got = deepval(r);
         });
         arm_timer(0);
         std::string v = o.kind == VALUE ? judge_sqrt(x, got) : kind_name(o.kind);
         if (v.empty() && re * 2 != E) v = "result_exponent_not_half";
+        if (v.empty() && rr != Radix && E != 0) v = "result_radix_differs";
         bool nt = i < nd;
         if (v.empty()) {
             t.held(o, nt);
